@@ -1246,13 +1246,13 @@ impl<T: Storage> Raft<T> {
         self.state = StateRole::Leader;
 
         let last_index = self.raft_log.last_index();
-        // If there is only one peer, it becomes leader after campaigning
-        // so all logs must be persisted.
-        // If not, it becomes leader after sending RequestVote msg.
-        // Since all logs must be persisted before sending RequestVote
-        // msg and logs can not be changed when it's (pre)candidate, the
-        // last index is equal to persisted index when it becomes leader.
-        assert_eq!(last_index, self.raft_log.persisted);
+        // All logs are persisted before the RequestVote msg is sent and logs can not be
+        // changed when it's (pre)candidate, so normally the last index is equal to the
+        // persisted index when it becomes leader. That is not guaranteed though: the
+        // application may send the persisted messages as soon as the write finished and
+        // report the persistence (`on_persist_ready`) only later, after the votes came
+        // back. Nothing below depends on it: the leader's own progress starts from
+        // `persisted` (see `reset`) and is advanced by `on_persist_entries`.
 
         // Update uncommitted state
         self.uncommitted_state.uncommitted_size = 0;
